@@ -36,10 +36,10 @@ Definition call_eqb (a b : call) : bool :=
 Definition poll_case := (list (Z * status) * list (Z * decision) * list Z * list call)%type.
 Definition chk_poll (c : poll_case) : bool :=
   let '(sts, res, ss, cs) := c in list_eqb call_eqb (calls (update_running_trials sts res ss)) cs.
-(* end of run: max_failures, done_trials_statuses, observed outcome (Some t = ValueError naming t) *)
-Definition end_case := (nat * list (Z * status) * option Z)%type.
+(* end of run: max_failures, all polls of the run, observed outcome (Some t = ValueError naming t) *)
+Definition end_case := (nat * list poll_in * option Z)%type.
 Definition chk_end (c : end_case) : bool :=
-  let '(mf, ds, out) := c in opt_eqb Z.eqb (run_end mf ds) out.
+  let '(mf, polls, out) := c in opt_eqb Z.eqb (tuner_end mf polls) out.
 """
 
 KINDS = [
@@ -49,6 +49,12 @@ KINDS = [
     ("hb", "pasha", "random"), ("hb", "rush_stopping", "random"), ("hb", "rush_promotion", "random"),
     ("hb", "cost_promotion", "random"),
     ("synchb", "random"), ("synchb", "bayesopt"), ("dehb",), ("pbt",), ("msr",), ("moasha",),
+    ("synchb", "random", "max"), ("synchb_custom", "min"), ("synchb_custom", "max"), ("dehb", "max"),
+]
+CUSTOM_RUNGS = [
+    [[(6, 1), (3, 2), (1, 5)], [(4, 2), (2, 5)], [(2, 5)]],
+    [[(8, 1), (4, 3), (2, 9)], [(5, 3), (2, 9)], [(3, 9)]],
+    [[(4, 2), (2, 4), (1, 9)], [(3, 4), (1, 9)], [(2, 9)]],
 ]
 PLACEMENTS = ["before_first_report", "between_reports", "after_resume", "with_decision_report"]
 MAX_T = 9
@@ -86,13 +92,19 @@ def make_scheduler(kind, seed):
                                       brackets=1 + seed % 2, random_seed=seed, **kw)
         if kind[0] == "synchb":
             return SynchronousGeometricHyperbandScheduler(
-                cs, metric="m", mode="min", resource_attr="epoch", max_resource_attr="epochs", grace_period=1,
+                cs, metric="m", mode=kind[2] if len(kind) > 2 else "min", resource_attr="epoch",
+                max_resource_attr="epochs", grace_period=1,
                 reduction_factor=3, searcher=kind[1], random_seed=seed,
                 search_options=so if kind[1] == "bayesopt" else None)
+        if kind[0] == "synchb_custom":
+            from syne_tune.optimizer.schedulers.synchronous import SynchronousHyperbandScheduler
+            return SynchronousHyperbandScheduler(
+                cs, bracket_rungs=[list(b) for b in CUSTOM_RUNGS[seed % len(CUSTOM_RUNGS)]], metric="m", mode=kind[1],
+                resource_attr="epoch", max_resource_attr="epochs", searcher="random", random_seed=seed)
         if kind[0] == "dehb":
             return GeometricDifferentialEvolutionHyperbandScheduler(
-                cs, metric="m", mode="min", resource_attr="epoch", max_resource_attr="epochs", grace_period=1,
-                reduction_factor=3, random_seed=seed)
+                cs, metric="m", mode=kind[1] if len(kind) > 1 else "min", resource_attr="epoch",
+                max_resource_attr="epochs", grace_period=1, reduction_factor=3, random_seed=seed)
         if kind[0] == "pbt":
             return PopulationBasedTraining(cs, metric="m", mode="min", resource_attr="epoch", max_t=MAX_T,
                                            population_size=3, perturbation_interval=2, random_seed=seed)
@@ -107,7 +119,7 @@ def make_scheduler(kind, seed):
 
 def no_repeat(kind):
     """searchers that promise not to suggest a configuration twice"""
-    return kind[0] in ("fifo",) or (kind[0] == "hb" and kind[1] in ("stopping", "promotion")) or kind[0] == "synchb"
+    return kind[0] in ("fifo",) or (kind[0] == "hb" and kind[1] in ("stopping", "promotion")) or kind[0].startswith("synchb")
 
 
 def observables(sch):
@@ -225,10 +237,14 @@ def run_placement(kind, seed, plan, nsteps, workers):
                             call_name[0] = "on_trial_result"
                             d = sch.on_trial_result(trials[tid], result(rng, l["pos"]))
                             if d != "CONTINUE":
+                                # the resumed run's report is answered with PAUSE/STOP and the failure falls into the same
+                                # poll: this is the same-poll placement (known finding F-C13-1 for PAUSE), not 'after_resume'
                                 call_name[0] = "on_trial_remove"
                                 sch.on_trial_remove(trials[tid])
-                        life[tid]["failed_how"] = "after_resume"
-                        do_fail(tid, "after_resume")
+                                l["status"] = "paused" if d == "PAUSE" else "stopped"
+                                life[tid]["failed_how"] = "with_%s_report" % d.lower()
+                        life[tid].setdefault("failed_how", "after_resume")
+                        do_fail(tid, "after_resume" if life[tid]["failed_how"] == "after_resume" else "with_decision_report")
                 continue
             if not running:
                 continue
@@ -292,6 +308,111 @@ def directed_same_poll(kind, seed):
     return problems
 
 
+def staged_sync(kind, seed):
+    """Synchronous Hyperband / DEHB, first bracket, rung by rung (as the seeded demo, randomised): the rung is
+    filled with jobs, a random subset of the pending jobs fails (on_trial_error) interleaved with the reports of
+    the others, leaving at least as many valid results as the next rung has slots; the suggestions that follow the
+    completion of the rung must not resume a trial the HARNESS recorded as failed (whatever value the scheduler
+    stored for it), and for synchronous Hyperband they must all be resumes (the bracket does not wait)."""
+    from syne_tune.backend.trial_status import Trial
+    rng = random.Random(seed)
+    sch = make_scheduler(kind, seed % 1000)
+    t0 = datetime.datetime(2020, 1, 1)
+    problems, trials, failed = [], {}, set()
+    stats = dict(errors=0, stages=0, resumes=0)
+    sink = io.StringIO()
+    call = ["?"]
+    is_dehb = kind[0] == "dehb"
+    try:
+        with contextlib.redirect_stdout(sink):
+            call[0] = "suggest"
+            sug = sch.suggest(0)          # initialises the searcher; bracket structure is public afterwards
+            if is_dehb:
+                rungs = [tuple(x) for x in sch.bracket_manager.bracket_rungs[0]] if hasattr(sch, "bracket_manager") else None
+            else:
+                rungs = [tuple(x) for x in sch.bracket_manager.bracket_rungs[0]]
+            if rungs is None:
+                return dict(problems=[], stats=stats)
+            size0, level0 = rungs[0]
+            members, pos = [], {}
+            for tid in range(size0):
+                if tid > 0:
+                    call[0] = "suggest"
+                    sug = sch.suggest(tid)
+                if sug is None or not sug.spawn_new_trial_id:
+                    return dict(problems=problems, stats=stats)
+                trials[tid] = Trial(trial_id=tid, config=sug.config, creation_time=t0)
+                call[0] = "on_trial_add"
+                sch.on_trial_add(trials[tid])
+                members.append(tid)
+                pos[tid] = 0
+            next_id = size0
+            for ri, (size, level) in enumerate(rungs):
+                nxt = rungs[ri + 1][0] if ri + 1 < len(rungs) else 0
+                healthy_now = [t for t in members if t not in failed]
+                max_fail = max(0, len(healthy_now) - max(nxt, 1))
+                to_fail = set(rng.sample(healthy_now, rng.randint(1 if max_fail else 0, min(max_fail, 3))))
+                order = list(members)
+                rng.shuffle(order)
+                for tid in order:
+                    if tid in failed:
+                        # a failed trial that was promoted for lack of valid results (documented exception) is failed again
+                        call[0] = "on_trial_error"
+                        sch.on_trial_error(trials[tid])
+                        continue
+                    if tid in to_fail:
+                        upto = rng.randint(pos[tid], level - 1)        # fails before reaching the rung level
+                        while pos[tid] < upto:
+                            pos[tid] += 1
+                            call[0] = "on_trial_result"
+                            sch.on_trial_result(trials[tid], result(rng, pos[tid]))
+                        call[0] = "on_trial_error"
+                        sch.on_trial_error(trials[tid])
+                        failed.add(tid)
+                        stats["errors"] += 1
+                        continue
+                    d = "CONTINUE"
+                    while pos[tid] < level:
+                        pos[tid] += 1
+                        call[0] = "on_trial_result"
+                        d = sch.on_trial_result(trials[tid], result(rng, pos[tid]))
+                    if d != "CONTINUE":
+                        call[0] = "on_trial_remove"
+                        sch.on_trial_remove(trials[tid])
+                stats["stages"] += 1
+                if not nxt:
+                    break
+                valid = [t for t in members if t not in failed]
+                new_members = []
+                for _ in range(nxt):
+                    call[0] = "suggest"
+                    sug = sch.suggest(next_id)
+                    if sug is None:
+                        break
+                    if sug.spawn_new_trial_id:
+                        if not is_dehb:
+                            problems.append(("synchronous_bracket_waits_after_failure", ri, sorted(failed)))
+                        trials[next_id] = Trial(trial_id=next_id, config=sug.config, creation_time=t0)
+                        call[0] = "on_trial_add"
+                        sch.on_trial_add(trials[next_id])
+                        pos[next_id] = 0
+                        next_id += 1
+                        continue
+                    tid = int(sug.checkpoint_trial_id)
+                    stats["resumes"] += 1
+                    if tid in failed and len(valid) >= nxt:
+                        problems.append(("failed_trial_resumed", tid, "sync_rung_%d_valid_%d_slots_%d" % (ri, len(valid), nxt)))
+                    if sug.config is not None:
+                        trials[tid] = Trial(trial_id=tid, config=sug.config, creation_time=t0)
+                    new_members.append(tid)
+                if problems or len(new_members) < nxt:
+                    break
+                members = new_members
+    except Exception as e:
+        problems.append(("exception", call[0], type(e).__name__, str(e)[:160]))
+    return dict(problems=problems, stats=stats)
+
+
 def result(rng, epoch):
     return {"m": rng.randint(1, 1000) / 1024.0, "m2": rng.randint(1, 1000) / 1024.0, "epoch": epoch,
             "cost": float(epoch)}
@@ -299,6 +420,9 @@ def result(rng, epoch):
 
 def signature_for(kind, prob):
     sig = dict(scheduler="/".join(kind), check=prob[0])
+    if prob[0] == "failed_trial_resumed" and str(prob[2]).startswith("sync_rung"):
+        sig.update(failed_how="pending_job_failed_before_rung_completion")
+        return sig
     if prob[0] == "exception":
         sig.update(call=prob[1], exception=prob[2])
     if prob[0] == "failed_trial_resumed":
@@ -456,6 +580,7 @@ def run_tuner(spec):
     sch.on_trial_result, sch.on_trial_remove, sch.on_trial_complete, sch.on_trial_error = w_res, w_rem, w_com, w_err
     tuner = Tuner(trial_backend=backend, scheduler=sch, stop_criterion=StoppingCriterion(max_num_trials_started=spec["ntrials"]),
                   n_workers=spec["workers"], sleep_time=0.0, max_failures=spec["max_failures"], callbacks=[],
+                  wait_trial_completion_when_stopping=bool(spec.get("wait", False)),
                   save_tuner=False, tuner_name="verif-c13", print_update_interval=1e9, results_update_interval=1e9)
     outcome = None
     sink = io.StringIO()
@@ -468,10 +593,11 @@ def run_tuner(spec):
         outcome = (type(e).__name__, str(e)[:200])
     if cur["statuses"] is not None:
         polls.append(dict(cur))
-    return dict(outcome=outcome, polls=polls, planned=bad, status=tuner.tuning_status, resumed=resumed)
+    return dict(outcome=outcome, polls=polls, planned=bad, status=tuner.tuning_status, resumed=resumed,
+                num_failed=int(tuner.tuning_status.num_trials_failed))
 
 
-def coq_poll(p):
+def coq_poll(p, with_calls=True):
     # decisions in result order; results of trials already done in this poll get no scheduler call: any decision
     dec_iter = {t: list(ds) for t, ds in p["decisions"].items()}
     res = []
@@ -481,6 +607,9 @@ def coq_poll(p):
         res.append("(%s, %s)" % (zlit(t), d))
     sts = ["(%s, %s)" % (zlit(t), STATUS_COQ[s]) for t, s in p["statuses"]]
     cs = ["%s %s" % (c, zlit(t)) for c, t in p["calls"]]
+    if not with_calls:
+        return "(%s, %s, %s)" % (lst(sts) if sts else "[]", lst(res) if res else "[]",
+                                 lst([zlit(t) for t in p["ss"]]) if p["ss"] else "[]")
     return "(%s, %s, %s, %s)" % (lst(sts) if sts else "[]", lst(res) if res else "[]",
                                  lst([zlit(t) for t in p["ss"]]) if p["ss"] else "[]", lst(cs) if cs else "[]")
 
@@ -536,6 +665,26 @@ def _run(ctx, replay):
             if kind[0] in ("fifo", "msr", "moasha") or (kind[0] == "hb" and "stopping" in kind[1]):
                 for _ in range(reps):
                     todo.append((kind, rng.randrange(10 ** 6), [("with_decision_report", 1)], rng.randint(60, 120), rng.randint(2, 4)))
+    staged = []
+    if replay is not None and replay.get("part") == "S":
+        staged = [(tuple(replay["kind"]), replay["seed"])]
+    elif replay is None:
+        for kind in (("synchb", "random", "min"), ("synchb", "random", "max"), ("synchb", "bayesopt", "max"),
+                     ("synchb_custom", "min"), ("synchb_custom", "max"), ("dehb", "min"), ("dehb", "max")):
+            for _ in range(ctx.n(6, 60)):
+                staged.append((kind, rng.randrange(10 ** 6)))
+    for kind, seed in staged:
+        res = staged_sync(kind, seed)
+        case = dict(part="S", kind=list(kind), seed=seed)
+        ctx.count(case, nontrivial=res["stats"]["errors"] >= 1 and res["stats"]["resumes"] >= 1)
+        ctx.traces_validated += 1
+        ctx.h("S_kind", "/".join(kind))
+        ctx.h("S_errors", res["stats"]["errors"])
+        ctx.h("S_resumes_checked", res["stats"]["resumes"])
+        for prob in res["problems"]:
+            ctx.h("S_problems", prob[0])
+            ctx.violation("property", "scheduler %s, rung-by-rung scenario seed %d: %r" % ("/".join(kind), seed, prob[:5]),
+                          case=case, signature=signature_for(kind, prob))
     for (kind, seed, plan, nsteps, workers) in todo:
         res = run_placement(kind, seed, plan, nsteps, workers)
         case = dict(part="A", kind=list(kind), seed=seed, plan=[list(p) for p in plan], nsteps=nsteps, workers=workers)
@@ -546,7 +695,7 @@ def _run(ctx, replay):
         ctx.h("A_errors_delivered", st["errors"])
         for p in plan:
             ctx.h("A_placement_planned", p[0])
-        if kind[0] == "synchb" and st["errors"] >= 1 and st["steps"] >= nsteps - 1 and nsteps >= 100 and \
+        if kind[0].startswith("synchb") and st["errors"] >= 1 and st["steps"] >= nsteps - 1 and nsteps >= 100 and \
                 st["resumes_after_failure"] == 0:
             res["problems"].append(("synchronous_bracket_never_promotes_after_failure", st))
         if any(pr[0] == "exception" for pr in res["problems"]) and plan:
@@ -586,7 +735,19 @@ def _run(ctx, replay):
             for t in rng.sample(range(ntr), min(nbad, ntr)):
                 bad[str(t)] = [rng.choice([0, 0, 1, 2, 4]), rng.choice(["failed", "failed", "stopped"]), rng.random() < 0.4]
             specs.append(dict(kind=list(kind), seed=rng.randrange(10 ** 6), ntrials=ntr, workers=rng.randint(1, 3),
-                              max_failures=rng.randint(0, 3), bad=bad))
+                              max_failures=rng.randint(0, 3), bad=bad, wait=rng.random() < 0.5))
+        # the limit is exceeded while other trials keep running and the tuner waits for them
+        for _ in range(ctx.n(12, 120)):
+            kind = rng.choice([("fifo", "random"), ("fifo", "random"), ("hb", "stopping", "random"), ("msr",)])
+            ntr = rng.randint(4, 8)
+            mf = rng.randint(0, 2)
+            early = rng.sample(range(min(ntr, 3)), min(mf + 1, min(ntr, 3)))
+            bad = {str(t): [rng.choice([0, 0, 1]), "failed", False] for t in early}
+            if len(early) <= mf:      # not enough early failures to exceed the limit: add later ones
+                for t in rng.sample(range(3, ntr), min(mf + 1 - len(early), ntr - 3)):
+                    bad[str(t)] = [rng.choice([0, 1]), "failed", False]
+            specs.append(dict(kind=list(kind), seed=rng.randrange(10 ** 6), ntrials=ntr, workers=rng.randint(2, 4),
+                              max_failures=mf, bad=bad, wait=True))
         # directed: a trial that fails right after the report that is answered with PAUSE (both seen in one poll)
         specs.append(dict(kind=["hb", "promotion", "random"], seed=2, ntrials=12, workers=3, max_failures=3,
                           bad={"0": [0, "failed", True]}))
@@ -651,9 +812,25 @@ def _run(ctx, replay):
                 if named not in failed_ids:
                     ctx.violation("property", "error names trial %d which did not fail (failed: %r)" % (named, failed_ids),
                                   case=case, signature=dict(part="tuner", check="error_names_non_failed_trial"))
-        if (nfailed > spec["max_failures"]) != (out is not None):
-            ctx.violation("property", "failed runs = %d, max_failures = %d, but outcome %r" % (nfailed, spec["max_failures"], out),
+        ctx.h("B_wait_trial_completion", bool(spec.get("wait", False)))
+        later_polls = 0
+        seen_excess = False
+        for p in res["polls"]:
+            if seen_excess and p["statuses"]:
+                later_polls += 1
+            if len({t for q_ in res["polls"][:res["polls"].index(p) + 1] for t, s_ in q_["statuses"] if s_ == "failed"}) > spec["max_failures"]:
+                seen_excess = True
+        ctx.h("B_polls_after_limit_exceeded", min(later_polls, 6))
+        # exceeding the limit ends the run with an error naming a failed trial (num_failed as the tuner counts it:
+        # public TuningStatus.num_trials_failed), and only then
+        if res["num_failed"] > spec["max_failures"] and out is None:
+            ctx.violation("property", "num_trials_failed = %d > max_failures = %d but Tuner.run() returned normally "
+                          "(wait_trial_completion_when_stopping=%r, %d polls after the limit was exceeded)" % (
+                              res["num_failed"], spec["max_failures"], spec.get("wait", False), later_polls),
                           case=case, signature=dict(part="tuner", check="failure_limit_not_enforced"))
+        if out is not None and nfailed <= spec["max_failures"]:
+            ctx.violation("property", "failed runs = %d <= max_failures = %d, but outcome %r" % (nfailed, spec["max_failures"], out),
+                          case=case, signature=dict(part="tuner", check="error_below_failure_limit"))
         # end of run against the model: done statuses in the order trials finished (last status per trial)
         order, last = [], {}
         for p in res["polls"]:
@@ -674,10 +851,15 @@ def _run(ctx, replay):
                     if t not in last:
                         order.append(t)
                     last[t] = fin
-        ds = ["(%s, %s)" % (zlit(t), STATUS_COQ[last[t]]) for t in order]
-        ends_coq.append("(%s, %s, %s)" % (natlit(spec["max_failures"]), lst(ds) if ds else "[]",
-                                          "None" if named is None else "(Some %s)" % zlit(named)))
-        ends_meta.append(dict(part="B", spec=spec, done=[(t, last[t]) for t in order], outcome=out))
+        # the model's failure count is that of the accumulated done dict; the tuner counts in TuningStatus (which also
+        # sees a failed trial that is running again): compare the end of the run only when the two counts agree
+        if sum(1 for v in last.values() if v == "failed") == res["num_failed"]:
+            pl = [coq_poll(p, with_calls=False) for p in res["polls"]]
+            ends_coq.append("(%s, %s, %s)" % (natlit(spec["max_failures"]), lst(pl) if pl else "[]",
+                                              "None" if named is None else "(Some %s)" % zlit(named)))
+            ends_meta.append(dict(part="B", spec=spec, done=[(t, last[t]) for t in order], outcome=out))
+        else:
+            ctx.h("B_end_not_compared_counts_differ", 1)
     if polls_coq:
         for i in ctx.coq_bad_cases("poll", IMPORTS, PRELUDE, "chk_poll", polls_coq, shard=300):
             ctx.violation("correspondence", "model/Failure.v update_running_trials differs from Tuner._update_running_trials "
